@@ -37,6 +37,13 @@ try:
     demo0 = sorted(t for t in p0 if "seed_demo" in t)
     rc, out = sh("git apply %s" % os.path.join(dst, "patch.diff"), cwd=wt)
     meta["patch_applies"] = (rc == 0)
+    if rc != 0 and old_meta.get("patch_applies"):
+        # the code the seed edits has changed since (a fix commit): keep the recorded result, only mark it
+        old_meta["stale"] = "patch no longer applies to the current tree (%s); the result below was recorded at repo commit %s" % (meta["repo_commit"], old_meta.get("repo_commit"))
+        json.dump(old_meta, open(os.path.join(dst, "meta.json"), "w"), indent=1)
+        print("STALE: patch does not apply any more; recorded result kept")
+        sh("git -C /repo worktree remove --force %s" % wt)
+        sys.exit(0)
     rcb, outb = sh("%s cargo build --offline 2>&1 | tail -3" % env, cwd=wt)
     p1 = tests("with")
     demo1 = sorted(t for t in p1 if "seed_demo" in t)
